@@ -10,100 +10,169 @@ and `conversion/mod.rs` is a value `Outcome.panic site`, every loop takes fuel a
 
 ## What is proved (for EVERY environment `env` satisfying the explicit hypotheses `EnvOK env G`)
 
-* `EditorInv` — the reachable-state invariant: composition invariant of C04 (`CompInv`, one character
-  per selected symbol, selections over syllables only), `cursor ≤ len` (C05), **every buffered syllable
-  has a word under every active lookup strategy** (the engine's, the editor's, an open selector's — the
-  mechanism the property's anchors name), prefix lookup only together with the prefix-matching engine,
-  `candidates_per_page > 0`, and for an open candidate list: the phrase selector's range is a non-empty run
-  of syllables inside the buffer and its composition is the editor's; a replacing symbol list sits on a
-  non-syllable symbol.
-* `C01_partial` — one operation: from a state satisfying `EditorInv`, EVERY public operation that is not in
-  the known class (`Known`: F02 / F03, state based) returns a value (no panic, fuel not exhausted) and
-  `EditorInv` holds again (`C01_target_holds`: the former coverage restriction `Covered` is gone).  `C01_partial_run` lifts it to every operation list.
-  `no_panic`, `no_hang` restate the conclusion in the words of the property.
-* `C01_full` — the statement without the `Known` exclusion — is **refuted** (`C01_full_refuted`) by the
-  F02 history (type a partial syllable under the fuzzy engine, switch to the standard engine, Enter) and
-  the F03 history (`f03_history_panics`: type a syllable, remove its only word, Enter) in a small
-  environment satisfying `EnvOK`.
-* `C01_plain_histories` — histories made of key events (any code / modifiers), `select(n)`, start / cancel
-  selecting, the four `jump_to_*_selection_point` calls, `commit`, `clear`, `ack`, layout switches and
-  `learn_phrase` need NO exclusion: they never panic or hang.
+* **`theorem C01 : C01_full`** — the property as worded, no exclusion: from every state satisfying the safety
+  invariant (`SafeInv`; `initial_safe`: a fresh editor does) EVERY history of valid public operations returns — no
+  panic, no exhausted fuel.  `C01_step` is the one-operation form (from every such state EVERY operation
+  returns and the invariant holds again), `no_panic` / `no_hang` restate it in the words of the property,
+  `C01_reachable`: from every state reachable from a fresh editor every operation returns.
+  Until the `fix:` commits 43e8036 / 0f255ea / ce48759 this was refuted by the findings F02 and F03 (a buffered
+  syllable without a word: `shortest_path(..).unwrap()`, the `debug_assert!` of `PhraseSelector::init`, the endless
+  loop of `PhraseSelector::next`); the former witnesses are kept as `f02_history_repaired`,
+  `f03_history_repaired`, `f03_hang_repaired`: the syllable is now shown as its spelling, a list without
+  candidates is not opened.
+* `EditorInv env G w` — the reachable-state invariant in two strengths.  `w = False` (`SafeInv`): composition
+  invariant of C04 (`CompInv`, one character per selected symbol, selections over syllables only), `cursor ≤ len`
+  (C05), `candidates_per_page > 0`, well-formed symbol tables, and for an open candidate list: the phrase
+  selector's range is a non-empty run of syllables inside the buffer, anchored at the position the list was
+  opened at, and its composition is the editor's; a replacing symbol list sits on a non-syllable symbol.
+  `w = True` adds: every buffered syllable has a word under every active lookup strategy (the engine's, the
+  editor's, an open selector's) and prefix lookup only together with the prefix engine — no longer needed for
+  safety; it is what the one-character-per-symbol statements of C02 / C05 / C18 rest on.
+* `word_clause_kept` / `C01_partial_run` — the strength-`True` invariant is kept by every operation outside the
+  class `Known` (the word-losing operations: `unlearn_phrase` / `set_editor_options` / `set_conversion_engine` after
+  which some buffered syllable has no word under an active strategy); `f02_switch_loses_word`: the class is not
+  empty.  `C01_plain_histories`: keys, `select(n)`, start / cancel selecting, jumps, `commit`, `clear`, `ack`,
+  layout switches and `learn_phrase` are never in it.
 * `selector_loops_terminate`, `init_terminates`, `jump_never_panics` — fuel sufficiency of every selector loop,
-  with the reason each makes progress.
-* `f41_history_repaired` — finding F41 (found by the first proof attempt in the corner `Covered` used to exclude,
-  confirmed as an abort on the real C API, repaired by a `fix:` commit): with the simple engine,
-  `jump_to_first_selection_point` made the single-word list swallow the following non-syllable symbol; choosing a
-  candidate recorded an invalid selection and the next `ChewingEngine` conversion aborted.
-* `initial_inv` — a fresh editor satisfies `EditorInv`.
+  with the reason each makes progress; none needs a dictionary hypothesis any more.
+* `f41_history_repaired` — finding F41 (found by the first proof attempt, confirmed as an abort on the real C API,
+  repaired by a `fix:` commit).
 
 ## Coverage
 
-Covered: every key event (all key codes / modifiers / options) in ALL four states — `Entering`,
-`EnteringSyllable`, `Highlighting`, and `Selecting` with a phrase list, a special-symbol list or a symbol
-table (`Selecting::next`: paging, Down/Space with `PhraseSelector::next` — terminates, wraps at most
-once —, j/k with `retarget`, digits with `Selecting::select`: the chosen phrase is a valid selection, so the
-composition invariant survives; `SymbolSelector::{menu,select}` index only existing tables) — including the
-keys that open a candidate list (`PhraseSelector::init` terminates), auto-commit and the dictionary flush;
-and every other entry point in every state: `select(n)`, `start_selecting`, `cancel_selecting`, `commit`,
-`clear`, `ack`, `clear_syllable_editor`, `set_editor_options`, `set_syllable_editor`,
-`set_conversion_engine`, `learn_phrase`, `unlearn_phrase` (the last four end with `revalidate_selecting`, the
-F32 repair of C07: `total_page()` answers under the invariant), and
-`jump_to_{first,last,next,prev}_selection_point` in every state — also while a *phrase* candidate list is open
-(`chewing_cand_list_{first,last,next,prev}`; `Proofs/C01Jump.lean`): the invariant of an open phrase selector
-carries the `Anchor` of its range (the position `orig` the list was opened at: the range starts there when
-choosing forward, ends right after it when choosing rearward — what finding F41 violated), so re-`init` from
-`orig` and the searches of `prev_selection_point` up to the break points around `orig` stay on the run of
-syllables.  Outside the theorems: the C glue `capi/src/io.rs` (correspondence of the Rust API per step and the
-C-API crash campaign).
-The symbol tables enter through the hypothesis `SymWF` (well-formed `symbols.dat` as loaded: leaf
-categories have a name, table categories point to an existing table), part of `EditorInv`.
+Every key event (all key codes / modifiers / options) in ALL four states — `Entering`, `EnteringSyllable`,
+`Highlighting`, and `Selecting` with a phrase list, a special-symbol list or a symbol table (`Selecting::next`:
+paging, Down/Space with `PhraseSelector::next` — a bounded loop that stays on its range when no range has a
+phrase —, j/k with `retarget` + closing a list without candidates, digits with `Selecting::select`: the chosen
+phrase is a valid selection; `SymbolSelector::{menu,select}` index only existing tables) — including the keys
+that open a candidate list (`open_phrase`: `PhraseSelector::init` terminates, a list without candidates is not
+opened), auto-commit and the dictionary flush; and every other entry point in every state: `select(n)`,
+`start_selecting`, `cancel_selecting`, `commit`, `clear`, `ack`, `clear_syllable_editor`, `set_editor_options`,
+`set_syllable_editor`, `set_conversion_engine`, `learn_phrase`, `unlearn_phrase` (the last four end with
+`revalidate_selecting`), and `jump_to_{first,last,next,prev}_selection_point` in every state.  Outside the
+theorems: the C glue `capi/src/io.rs` (correspondence of the Rust API per step and the C-API crash campaign).
+The symbol tables enter through the hypothesis `SymWF`, part of `EditorInv`.
 
-The conversion engines enter through `EnvOK.convert_ok`, which is C03's `nonempty_result` + `alt_chain` +
-`one_char_per_symbol` + `fuel_suffices` (proved there for the engine model under `CompValid`, a word per
-syllable and `ScoreBound`); `compValid_of_cinv` proves that `EditorInv` implies C03's `CompValid`, and
-`engines_satisfy_convert_ok` that C03's engine model satisfies `convert_ok` (buffers ≤ 128 symbols).
+The conversion engines enter through `EnvOK.convert_ok` (on EVERY valid composition every engine returns at least
+one alternative, each a chain over `0..len` with at least one character per symbol) and `EnvOK.convert_len`
+(exactly one character per symbol when every syllable has a word): C03's `nonempty_result` + `alt_chain` +
+`text_at_least_one_per_symbol` + `one_char_per_symbol`; `compValid_of_cinv` proves that `EditorInv` implies
+C03's `CompValid`, and `engines_satisfy_convert_ok` that C03's engine model satisfies both (buffers ≤ 128 symbols).
 -/
 namespace Chewing.C01
 open Chewing Chewing.C04 Chewing.C05 Chewing.C06
 
-variable {D L : Type} {env : Env D L} {G : D → Prop}
+variable {D L : Type} {env : Env D L} {G : D → Prop} {w : Prop}
 
-/-- **C01, one operation (partial: the known class F02/F03 is excluded, nothing else).**  `hv`: arguments
-    the C layer validates; `hk`: not the known class F02/F03.  Every public operation of the editor is
-    covered, also `jump_to_*_selection_point` on an open phrase list (the former `Covered` restriction is gone). -/
-theorem C01_partial (hE : EnvOK env G) (e : Editor D L) (op : Op L) (hi : EditorInv env G e) (hv : OpValid op)
-    (hk : ¬ Known env e op) :
-    ∃ e', e.apply env op = .ok e' ∧ EditorInv env G e' :=
-  apply_ok hE hi op hv hk
+/-- the safety invariant: the reachable-state invariant without the clause "every buffered syllable has a word" -/
+abbrev SafeInv (env : Env D L) (G : D → Prop) (e : Editor D L) : Prop := EditorInv env G False e
+
+/-- the safety invariant is the word-free part of the full one -/
+theorem EditorInv.safe {e : Editor D L} (h : EditorInv env G w e) : SafeInv env G e := by
+  refine ⟨h.sh.safe, ?_⟩
+  have hst := h.st
+  cases hs : e.state with
+  | selecting s =>
+    rw [hs] at hst
+    obtain ⟨h1, h2⟩ := hst
+    refine ⟨?_, h2⟩
+    split
+    · next p hp => rw [hp] at h1; exact ⟨h1.com, h1.lt, h1.le, h1.syl, fun hw => hw.elim, h1.anchor⟩
+    · next y hp => rw [hp] at h1; exact h1
+    · next sym hp => rw [hp] at h1; exact h1
+  | entering => trivial
+  | enteringSyllable => trivial
+  | highlighting m => trivial
+
+/-- **C01, one operation — no exclusion.**  From every state satisfying the safety invariant EVERY public
+    operation of the editor (`hv`: arguments the C layer validates) returns a value — no panic, fuel not
+    exhausted — and the invariant holds again. -/
+theorem C01_step (hE : EnvOK env G) (e : Editor D L) (op : Op L) (hi : SafeInv env G e) (hv : OpValid op) :
+    ∃ e', e.apply env op = .ok e' ∧ SafeInv env G e' :=
+  apply_ok hE hi op hv (fun hw => hw.elim)
 
 /-- … in the words of the property: the call does not panic … -/
-theorem no_panic (hE : EnvOK env G) (e : Editor D L) (op : Op L) (hi : EditorInv env G e) (hv : OpValid op)
-    (hk : ¬ Known env e op) (site : String) : e.apply env op ≠ .panic site :=
-  (apply_ok hE hi op hv hk).not_panic.1 site
+theorem no_panic (hE : EnvOK env G) (e : Editor D L) (op : Op L) (hi : SafeInv env G e) (hv : OpValid op)
+    (site : String) : e.apply env op ≠ .panic site :=
+  (apply_ok hE hi op hv (fun hw => hw.elim)).not_panic.1 site
 
 /-- … and every loop finishes within the fuel the model supplies (linear in the buffer length) -/
-theorem no_hang (hE : EnvOK env G) (e : Editor D L) (op : Op L) (hi : EditorInv env G e) (hv : OpValid op)
-    (hk : ¬ Known env e op) : e.apply env op ≠ .outOfFuel :=
-  (apply_ok hE hi op hv hk).not_panic.2
+theorem no_hang (hE : EnvOK env G) (e : Editor D L) (op : Op L) (hi : SafeInv env G e) (hv : OpValid op) :
+    e.apply env op ≠ .outOfFuel :=
+  (apply_ok hE hi op hv (fun hw => hw.elim)).not_panic.2
 
-/-- a history all of whose steps are valid and outside the known class (evaluated along the run) -/
+/-- **C01, every history — no exclusion** (induction over the history) -/
+theorem C01_run (hE : EnvOK env G) (ops : List (Op L)) :
+    ∀ e : Editor D L, SafeInv env G e → (∀ op ∈ ops, OpValid op) → ∃ e', e.run env ops = .ok e' ∧ SafeInv env G e' := by
+  induction ops with
+  | nil => intro e hi _; exact ⟨e, rfl, hi⟩
+  | cons op ops ih =>
+    intro e hi hv
+    obtain ⟨e1, h1, hi1⟩ := C01_step hE e op hi (hv op (List.mem_cons_self ..))
+    obtain ⟨e2, h2, hi2⟩ := ih e1 hi1 (fun o ho => hv o (List.mem_cons_of_mem _ ho))
+    exact ⟨e2, by simp only [Editor.run]; rw [h1]; exact h2, hi2⟩
+
+/-- the property as worded, over histories: from a state satisfying the safety invariant (a fresh editor does)
+    NO sequence of (valid) public operations panics or hangs -/
+def C01_full : Prop :=
+  ∀ (D L : Type) (env : Env D L) (G : D → Prop), EnvOK env G → ∀ (e : Editor D L), SafeInv env G e →
+    ∀ ops : List (Op L), (∀ op ∈ ops, OpValid op) → ∃ e', e.run env ops = .ok e'
+
+/-- **C01** (full strength; refuted by F02 / F03 until the repair) -/
+theorem C01 : C01_full := fun _ _ _ _ hE e hi ops hv => by
+  obtain ⟨e', h, _⟩ := C01_run hE ops e hi hv
+  exact ⟨e', h⟩
+
+theorem ok_unique {α : Type} {r : Outcome α} {a b : α} (h1 : r = .ok a) (h2 : r = .ok b) : a = b :=
+  Outcome.ok.inj (h1.symm.trans h2)
+
+/-- states reachable from `e0` by valid public operations that returned -/
+inductive Reachable (env : Env D L) (e0 : Editor D L) : Editor D L → Prop
+  | init : Reachable env e0 e0
+  | step {e e' : Editor D L} {op : Op L} : Reachable env e0 e → OpValid op → e.apply env op = .ok e' → Reachable env e0 e'
+
+/-- **no panic and no hang for EVERY operation from EVERY reachable state, all histories** -/
+theorem C01_reachable (hE : EnvOK env G) {e0 e : Editor D L} (h0 : SafeInv env G e0) (hr : Reachable env e0 e)
+    (op : Op L) (hv : OpValid op) :
+    SafeInv env G e ∧ (∃ e', e.apply env op = .ok e') ∧ (∀ site, e.apply env op ≠ .panic site) ∧ e.apply env op ≠ .outOfFuel := by
+  have hi : SafeInv env G e := by
+    induction hr with
+    | init => exact h0
+    | step _ hv' ha ih =>
+      obtain ⟨e2, h2, hi2⟩ := C01_step hE _ _ ih hv'
+      cases ok_unique h2 ha
+      exact hi2
+  obtain ⟨e', h, _⟩ := C01_step hE e op hi hv
+  exact ⟨hi, ⟨e', h⟩, no_panic hE e op hi hv, no_hang hE e op hi hv⟩
+
+/-! ## The stronger invariant (every buffered syllable has a word) and the operations that can lose it -/
+
+/-- **the word clause is kept outside `Known`** (the former `C01_partial`): from a state satisfying the
+    strength-`True` invariant an operation that is not word-losing re-establishes it.  `hk`: not in the class
+    `Known` (F02 / F03 — no longer a crash class). -/
+theorem word_clause_kept (hE : EnvOK env G) (e : Editor D L) (op : Op L) (hi : EditorInv env G True e) (hv : OpValid op)
+    (hk : ¬ Known env e op) :
+    ∃ e', e.apply env op = .ok e' ∧ EditorInv env G True e' :=
+  apply_ok hE hi op hv (fun _ => hk)
+
+/-- a history all of whose steps are valid and outside the word-losing class (evaluated along the run) -/
 def Allowed (env : Env D L) : Editor D L → List (Op L) → Prop
   | _, [] => True
   | e, op :: ops => OpValid op ∧ ¬ Known env e op ∧ ∀ e', e.apply env op = .ok e' → Allowed env e' ops
 
-/-- **C01, every history (partial).** -/
+/-- … over histories -/
 theorem C01_partial_run (hE : EnvOK env G) (ops : List (Op L)) :
-    ∀ e : Editor D L, EditorInv env G e → Allowed env e ops → ∃ e', e.run env ops = .ok e' ∧ EditorInv env G e' := by
+    ∀ e : Editor D L, EditorInv env G True e → Allowed env e ops → ∃ e', e.run env ops = .ok e' ∧ EditorInv env G True e' := by
   induction ops with
   | nil => intro e hi _; exact ⟨e, rfl, hi⟩
   | cons op ops ih =>
     intro e hi ha
     obtain ⟨hv, hk, hrest⟩ := ha
-    obtain ⟨e1, h1, hi1⟩ := apply_ok hE hi op hv hk
+    obtain ⟨e1, h1, hi1⟩ := word_clause_kept hE e op hi hv hk
     obtain ⟨e2, h2, hi2⟩ := ih e1 hi1 (hrest e1 h1)
     exact ⟨e2, by simp only [Editor.run]; rw [h1]; exact h2, hi2⟩
 
-/-- operations that can never be in the known class: key events (any code, any modifiers), `select(n)`,
+/-- operations that can never be word-losing: key events (any code, any modifiers), `select(n)`,
     `start_selecting`, `cancel_selecting`, `commit`, `clear` (reset), `ack`, `clear_syllable_editor`,
     `set_syllable_editor` (keyboard-layout switch at any moment), `learn_phrase`, and the four
     `jump_to_*_selection_point` calls -/
@@ -121,10 +190,10 @@ theorem allowed_of_plain (ops : List (Op L)) : ∀ e : Editor D L, (∀ op ∈ o
     have hrest := fun e' (_ : e.apply env op = .ok e') => ih e' (fun o ho => h o (List.mem_cons_of_mem _ ho))
     cases op <;> first | exact ⟨trivial, fun hk => hk, hrest⟩ | exact absurd hp (fun hh => hh)
 
-/-- **C01 for histories of keys, candidate choices, jumps, commits, resets, layout switches and learn calls**:
-    from every state satisfying the invariant NO such history panics or hangs — no exclusion at all -/
-theorem C01_plain_histories (hE : EnvOK env G) (e : Editor D L) (hi : EditorInv env G e) (ops : List (Op L))
-    (hp : ∀ op ∈ ops, Plain op) : ∃ e', e.run env ops = .ok e' ∧ EditorInv env G e' :=
+/-- histories of keys, candidate choices, jumps, commits, resets, layout switches and learn calls keep the
+    word clause -/
+theorem C01_plain_histories (hE : EnvOK env G) (e : Editor D L) (hi : EditorInv env G True e) (ops : List (Op L))
+    (hp : ∀ op ∈ ops, Plain op) : ∃ e', e.run env ops = .ok e' ∧ EditorInv env G True e' :=
   C01_partial_run hE ops e hi (allowed_of_plain ops e hp)
 
 /-- running a concatenation = running the parts one after the other -/
@@ -140,78 +209,81 @@ theorem run_append (env : Env D L) (ops1 : List (Op L)) : ∀ (ops2 : List (Op L
     | panic p => rw [ha] at h; cases h
     | outOfFuel => rw [ha] at h; cases h
 
-/-- a fresh editor (empty buffer, any dictionary that is well formed, any layout, coupled options) satisfies the invariant -/
+/-- a fresh editor (empty buffer, any dictionary that is well formed, any layout; coupled options for the
+    strength that carries the word clause) satisfies the invariant -/
 theorem initial_inv (sh : Shared D L) (hg : G sh.dict) (hcom : sh.com = {})
-    (hcp : sh.options.lookupStrategy = .fuzzyPartialPrefix → engStrategy sh.engine = .fuzzyPartialPrefix)
+    (hcp : w → sh.options.lookupStrategy = .fuzzyPartialPrefix → engStrategy sh.engine = .fuzzyPartialPrefix)
     (hpp : 0 < sh.options.candidatesPerPage) (hsym : SymWF sh.symSel) :
-    EditorInv env G { shared := sh, state := .entering } := by
+    EditorInv env G w { shared := sh, state := .entering } := by
   refine ⟨⟨hg, hcom ▸ cedInv_new, ?_, hcp, hpp, hsym⟩, trivial⟩
-  intro c hc
+  intro _ c hc
   rw [hcom] at hc
   cases hc
 
+/-- … in particular the safety invariant, whatever the options -/
+theorem initial_safe (sh : Shared D L) (hg : G sh.dict) (hcom : sh.com = {})
+    (hpp : 0 < sh.options.candidatesPerPage) (hsym : SymWF sh.symSel) :
+    SafeInv env G { shared := sh, state := .entering } :=
+  initial_inv sh hg hcom (fun hw => hw.elim) hpp hsym
+
 /-- **link to C03**: the engine model of C03 (all three engines, any in-range pick oracle) satisfies the
-    hypothesis `EnvOK.convert_ok` the theorems above make about `env.convert`, on buffers of at most 128
-    symbols over dictionaries with frequencies ≤ 2^23 (`ScoreBound`) -/
+    hypotheses `EnvOK.convert_ok` / `EnvOK.convert_len` the theorems above make about `env.convert`, on buffers of
+    at most 128 symbols over dictionaries with frequencies ≤ 2^23 (`ScoreBound`): a result on EVERY valid
+    composition none of whose syllables has the empty spelling (`SpellNonempty`: every syllable but the code 0) … -/
 theorem engines_satisfy_convert_ok {pick : Nat → List Conv.Path → Nat} (hp : Conv.PickInRange pick) {d : Dict}
-    (hd : Conv.NoEmptyKey d) (hw : Conv.WellFormed d) (hf : ∀ strat key, ∀ p ∈ d.lookup key strat, p.freq ≤ 8388608)
-    (k : EngineKind) {c : Composition} (hi : CInv c) (hlen : c.symbols.length ≤ 128)
-    (hword : ∀ x, Sym.syl x ∈ c.symbols → (d.lookup [x] (engStrategy k)).head?.isSome = true) :
-    OkAnd (fun paths => paths ≠ [] ∧ ∀ p ∈ paths, PathOK c p) (Conv.convert pick (toEngine k) d c) :=
-  convert_ok_of_C03 hp hd hw hf k (compValid_of_cinv hi) hlen hword
+    (hw : Conv.WellFormed d) (hf : ∀ strat key, ∀ p ∈ d.lookup key strat, p.freq ≤ 8388608)
+    (k : EngineKind) {c : Composition} (hi : CInv c) (hlen : c.symbols.length ≤ 128) (hn : Conv.SpellNonempty c) :
+    OkAnd (fun paths => paths ≠ [] ∧ ∀ p ∈ paths, PathW c p) (Conv.convert pick (toEngine k) d c) :=
+  convert_ok_of_C03 hp hw hf k (compValid_of_cinv hi) hlen hn
 
-/-- the statement the package aimed at while `jump_to_*_selection_point` on an open phrase list was outside
-    the theorems (predicate `Covered`, now deleted): one operation, no restriction but the known class -/
-def C01_target : Prop :=
-  ∀ (D L : Type) (env : Env D L) (G : D → Prop), EnvOK env G → ∀ (e : Editor D L) (op : Op L),
-    EditorInv env G e → OpValid op → ¬ Known env e op → ∃ e', e.apply env op = .ok e' ∧ EditorInv env G e'
-
-/-- **… reached**: every public operation of the editor, in every state satisfying the invariant -/
-theorem C01_target_holds : C01_target :=
-  fun _ _ _ _ hE e op hi hv hk => apply_ok hE hi op hv hk
+/-- … with one character per symbol when every syllable has a word under the engine's strategy -/
+theorem engines_satisfy_convert_len {pick : Nat → List Conv.Path → Nat} {d : Dict} (hw : Conv.WellFormed d)
+    (k : EngineKind) {c : Composition} (hi : CInv c)
+    (hword : ∀ x, Sym.syl x ∈ c.symbols → (d.lookup [x] (engStrategy k)).head?.isSome = true)
+    {paths : List (List Interval)} (hq : Conv.convert pick (toEngine k) d c = .ok paths) :
+    ∀ p ∈ paths, ∀ iv ∈ p, iv.text.length = iv.stop - iv.start :=
+  convert_len_of_C03 hw k (compValid_of_cinv hi) hword hq
 
 /-- **`jump_to_{first,last,next,prev}_selection_point`** (`chewing_cand_list_*`) never panic or hang and keep
     the invariant, in every state — also on an open phrase list (`Proofs/C01Jump.lean`: the searches stay on
     the run of syllables around the position the list was opened at; fuel sufficiency: every round of
     `next_selection_point` shortens the range, every round of `prev_selection_point` moves one symbol
     towards an end of the buffer, `jump_to_last` shortens the range in every round) -/
-theorem jump_never_panics (e : Editor D L) (hi : EditorInv env G e) (w : Nat) :
-    ∃ e' okk, e.jump env w = .ok (e', okk) ∧ EditorInv env G e' := by
-  obtain ⟨⟨e', b⟩, hq, h1⟩ := jump_api_ok hi w
+theorem jump_never_panics (e : Editor D L) (hi : EditorInv env G w e) (which : Nat) :
+    ∃ e' okk, e.jump env which = .ok (e', okk) ∧ EditorInv env G w e' := by
+  obtain ⟨⟨e', b⟩, hq, h1⟩ := jump_api_ok hi which
   exact ⟨e', b, hq, h1⟩
 
 /-- **the selector loops terminate — fuel sufficiency, with the reason each loop makes progress.**  For a
-    selector whose range is a non-empty run of syllables inside its buffer (`RangeOK`) over a dictionary with a
-    word for every buffered syllable under the selector's strategy (what `Known`, F02/F03, excludes):
-    * `PhraseSelector::next` (Down / Space on the last page) returns within `2·len + 4` rounds: every round
-      shortens the range by one symbol until the one-syllable range at the anchored end, which has a word;
-      it wraps around to the break point at most once (`next_ok`);
+    selector whose range is a non-empty run of syllables inside its buffer (`RangeOK`), over ANY dictionary:
+    * `PhraseSelector::next` (Down / Space on the last page) is a bounded loop (`len` rounds): every round moves to
+      a range that is again a non-empty run of syllables (one symbol shorter, or — wrapping around — up to the
+      break point); it ends at the first range with a phrase, or stays on the range it started from (`next_ok`;
+      before the F03 repair the loop was unbounded and span forever when no range had a phrase);
     * `next_selection_point` returns within `len + 2` rounds: every round shortens the range, a one-symbol
       range ends the search;  `prev_selection_point` likewise: every round moves the free end one symbol
       towards the end / beginning of the buffer, where the search ends;
-    * `jump_to_last_selection_point` returns within `len + 2` rounds: every round strictly shortens the range.
-    None of the four needs the dictionary hypothesis except `next` (without it `next` may spin forever: the hang
-    of finding F03). -/
+    * `jump_to_last_selection_point` returns within `len + 2` rounds: every round strictly shortens the range. -/
 theorem selector_loops_terminate (d : D) (s : PhraseSel) (hr : RangeOK s) :
-    ((∀ c, Sym.syl c ∈ s.com.symbols → env.hasPhrase d [c] s.strategy = true) → ∃ s', PhraseSel.next env s d = .ok s' ∧ RangeOK s') ∧
+    (∃ s', PhraseSel.next env s d = .ok s' ∧ RangeOK s') ∧
     (∃ r, PhraseSel.nextSelectionPoint env s d = .ok r) ∧ (∃ r, PhraseSel.prevSelectionPoint env s d = .ok r) ∧
     (∃ s', PhraseSel.jumpToLast env s d = .ok s' ∧ RangeOK s') := by
-  refine ⟨fun hw => ?_, ?_, ?_, ?_⟩
-  · obtain ⟨s', hq, hp⟩ := next_ok (env := env) d s hr hw; exact ⟨s', hq, hp.range⟩
+  refine ⟨?_, ?_, ?_, ?_⟩
+  · obtain ⟨s', hq, hp⟩ := next_ok (env := env) d s hr; exact ⟨s', hq, hp.range⟩
   · obtain ⟨r, hq, _⟩ := nextSelectionPoint_ok (env := env) d s hr; exact ⟨r, hq⟩
   · obtain ⟨r, hq, _⟩ := prevSelectionPoint_ok (env := env) d s hr; exact ⟨r, hq⟩
   · obtain ⟨s', hq, hp⟩ := jumpToLast_ok (env := env) d s hr; exact ⟨s', hq, hp.range⟩
 
 /-- **`PhraseSelector::init` terminates** (opening a list, `j` / `k`, `chewing_cand_list_first`) at a syllable
-    inside the buffer, over a dictionary with a word for every buffered syllable: the shrinking loop makes
-    progress by one symbol per round and stops at the latest at the single syllable under the cursor, which has
-    a word; the fuel `len + 2` suffices.  The range returned is a non-empty run of syllables around the cursor. -/
+    inside the buffer, over ANY dictionary: the shrinking loop makes progress by one symbol per round and stops
+    at the latest at the single syllable under the cursor — with or without a word for it (F02 / F03 repair: it
+    used to run into `debug_assert!(!syllables.is_empty())`); the fuel `len + 2` suffices.  The range returned is
+    a non-empty run of syllables around the cursor. -/
 theorem init_terminates (forward : Bool) (strategy : Strategy) (com : Composition) (cursor : Nat) (d : D)
-    (hlt : cursor < com.symbols.length) (hsyl : ∃ k, com.symbols[cursor]? = some (Sym.syl k))
-    (hw : ∀ c, Sym.syl c ∈ com.symbols → env.hasPhrase d [c] strategy = true) :
+    (hlt : cursor < com.symbols.length) (hsyl : ∃ k, com.symbols[cursor]? = some (Sym.syl k)) :
     ∃ p, PhraseSel.init env forward strategy com cursor d = .ok p ∧ p.com = com ∧ RangeOK p ∧ p.orig = cursor ∧
       p.begin_ ≤ cursor ∧ cursor < p.end_ := by
-  obtain ⟨p, hq, p1, _, p3, p4, p5, p6, p7, p8⟩ := init_ok (env := env) forward strategy com cursor d hlt hsyl hw
+  obtain ⟨p, hq, p1, _, p3, p4, p5, p6, p7, p8⟩ := init_ok (env := env) forward strategy com cursor d hlt hsyl
   refine ⟨p, hq, p1, ⟨p3, by rw [p1]; exact p4, by rw [p1]; exact p5⟩, p8, ?_, ?_⟩
   · cases hf : p.forward with
     | true => have := p6.fw hf; omega
@@ -220,21 +292,16 @@ theorem init_terminates (forward : Bool) (strategy : Strategy) (com : Compositio
     | true => have := p6.fw hf; omega
     | false => have := p6.rw hf; omega
 
-/-- the property as worded, over histories: from a fresh state NO sequence of (valid) public operations
-    panics or hangs -/
-def C01_full : Prop :=
-  ∀ (D L : Type) (env : Env D L) (G : D → Prop), EnvOK env G → ∀ (e : Editor D L), EditorInv env G e →
-    ∀ ops : List (Op L), (∀ op ∈ ops, OpValid op) → ∃ e', e.run env ops = .ok e'
+/-! ## The former refutation (F02, F03) in a small environment that satisfies `EnvOK`: repaired -/
 
-/-! ## Refutation of the full statement (F02, F03) in a small environment that satisfies `EnvOK` -/
-
-/-- one interval per symbol -/
-def singles : List Sym → Nat → List Interval
+/-- one interval per symbol; a syllable without a word (`has = false`) is shown as a two-character "spelling" -/
+def singles (has : Sym → Bool) : List Sym → Nat → List Interval
   | [], _ => []
   | s :: r, i =>
-    { start := i, stop := i + 1, isPhrase := s.isSyl, text := [match s with | .syl x => x | .chr x => x] } :: singles r (i + 1)
+    { start := i, stop := i + 1, isPhrase := s.isSyl,
+      text := (match s with | .syl x => if has s then [x] else [x, x] | .chr x => [x]) } :: singles has r (i + 1)
 
-theorem singles_chain (l : List Sym) : ∀ i, Conv.IvChain i (i + l.length) (singles l i) := by
+theorem singles_chain (has : Sym → Bool) (l : List Sym) : ∀ i, Conv.IvChain i (i + l.length) (singles has l i) := by
   induction l with
   | nil => intro i; simp [singles, Conv.IvChain]
   | cons s r ih =>
@@ -245,15 +312,32 @@ theorem singles_chain (l : List Sym) : ∀ i, Conv.IvChain i (i + l.length) (sin
     rw [show i + (r.length + 1) = i + 1 + r.length by omega]
     exact this
 
-theorem singles_text (l : List Sym) : ∀ i, ∀ iv ∈ singles l i, iv.text.length = iv.stop - iv.start := by
+theorem singles_ge (has : Sym → Bool) (l : List Sym) : ∀ i, ∀ iv ∈ singles has l i, iv.stop - iv.start ≤ iv.text.length := by
   induction l with
   | nil => intro i iv h; cases h
   | cons s r ih =>
     intro i iv h
     simp only [singles, List.mem_cons] at h
     rcases h with rfl | h
-    · show 1 = i + 1 - i; omega
+    · show i + 1 - i ≤ _
+      cases s with
+      | syl x => dsimp only; split <;> simp
+      | chr x => simp
     · exact ih (i + 1) iv h
+
+theorem singles_text (has : Sym → Bool) (l : List Sym) (hall : ∀ s ∈ l, has s = true) :
+    ∀ i, ∀ iv ∈ singles has l i, iv.text.length = iv.stop - iv.start := by
+  induction l with
+  | nil => intro i iv h; cases h
+  | cons s r ih =>
+    intro i iv h
+    simp only [singles, List.mem_cons] at h
+    rcases h with rfl | h
+    · show _ = i + 1 - i
+      cases s with
+      | syl x => dsimp only; rw [if_pos (hall _ (List.mem_cons_self ..))]; simp
+      | chr x => simp
+    · exact ih (fun s hs => hall s (List.mem_cons_of_mem _ hs)) (i + 1) iv h
 
 /-- dictionary = the syllables that have a word; syllable `0` is a *partial* syllable: it has a word by
     prefix matching only -/
@@ -276,7 +360,7 @@ def toyEnv : Env (List Nat) Nat where
     | [c] => d.erase c
     | _ => d
   reopenFlush d := d
-  convert k d c := if c.symbols.all (toyHas d k) then .ok [singles c.symbols 0] else .panic "shortest-path-unwrap"
+  convert k d c := .ok [singles (toyHas d k) c.symbols 0]
   estimate _ f _ := .ok f
   keyPress l ev := if l == 0 then (if ev.code == 32 then (.absorb, 1) else if ev.code == 33 then (.absorb, 4) else (.keyError, 0))
                    else (.commit, l)
@@ -314,21 +398,25 @@ theorem toyEnv_ok : EnvOK toyEnv (fun _ => True) where
   flush_mono := fun _ _ _ hh => hh
   remove_good := fun _ _ _ _ => trivial
   convert_ok := by
-    intro k d c _ _ hw
-    have hall : c.symbols.all (toyHas d k) = true := by
-      rw [List.all_eq_true]
-      intro x hx
-      cases x with
-      | syl y => exact hw y hx
-      | chr y => rfl
-    simp only [toyEnv, hall, if_true]
+    intro k d c _ _
     refine .ok ⟨by simp, ?_⟩
     intro p hp
     simp only [List.mem_cons, List.not_mem_nil, or_false] at hp
     subst hp
-    refine ⟨?_, singles_text _ 0⟩
-    have := singles_chain c.symbols 0
+    refine ⟨?_, singles_ge _ _ 0⟩
+    have := singles_chain (toyHas d k) c.symbols 0
     simpa using this
+  convert_len := by
+    intro k d c paths _ _ hw hq p hp
+    simp only [toyEnv] at hq
+    cases Outcome.ok.inj hq
+    simp only [List.mem_cons, List.not_mem_nil, or_false] at hp
+    subst hp
+    refine singles_text _ _ ?_ 0
+    intro x hx
+    cases x with
+    | syl y => exact hw y hx
+    | chr y => rfl
   estimate_ok := fun _ f _ => ⟨f, rfl⟩
 
 theorem symWF_empty : SymWF {} :=
@@ -343,37 +431,58 @@ def fuzzyEditor (d : List Nat) : Editor (List Nat) Nat :=
 /-- a fresh editor with the default (standard) engine -/
 def stdEditor (d : List Nat) : Editor (List Nat) Nat := { shared := { syl := 0, dict := d } }
 
-theorem fuzzyEditor_inv (d : List Nat) : EditorInv toyEnv (fun _ => True) (fuzzyEditor d) :=
-  initial_inv _ trivial rfl (fun _ => rfl) (by show (0 : Nat) < 10; omega) symWF_empty
+theorem fuzzyEditor_inv (d : List Nat) : EditorInv toyEnv (fun _ => True) w (fuzzyEditor d) :=
+  initial_inv _ trivial rfl (fun _ _ => rfl) (by show (0 : Nat) < 10; omega) symWF_empty
 
-theorem stdEditor_inv (d : List Nat) : EditorInv toyEnv (fun _ => True) (stdEditor d) :=
-  initial_inv _ trivial rfl (fun h => by cases h) (by show (0 : Nat) < 10; omega) symWF_empty
+theorem stdEditor_inv (d : List Nat) : EditorInv toyEnv (fun _ => True) w (stdEditor d) :=
+  initial_inv _ trivial rfl (fun _ h => by cases h) (by show (0 : Nat) < 10; omega) symWF_empty
 
 def keyH : KeyEvent := { index := 32, code := 32, unicode := 104 }
 def keyJ : KeyEvent := { index := 33, code := 33, unicode := 106 }
 def keyEnter : KeyEvent := { index := 50, code := KC.enter, unicode := 65533 }
 
-/-- **F02**: fuzzy engine, type the partial syllable, switch to the standard engine, Enter ⇒ the
-    conversion has no path (`shortest_path(..).unwrap()`) -/
-theorem f02_history_panics :
-    (fuzzyEditor []).run toyEnv [.key keyH, .key keyH, .setEngine .chewing, .key keyEnter] =
-      .panic "shortest-path-unwrap" := rfl
+def keyDown : KeyEvent := { index := 57, code := KC.down, unicode := 65533 }
+def key1 : KeyEvent := { index := 1, code := KC.n1, unicode := 49 }
 
-/-- **F03**: type a syllable, remove its only word, Enter ⇒ same site -/
-theorem f03_history_panics :
-    (stdEditor [3]).run toyEnv [.key keyJ, .key keyJ, .unlearn [3] [3], .key keyEnter] =
-      .panic "shortest-path-unwrap" := rfl
+/-- **F02 repaired**: fuzzy engine, type the partial syllable `0`, switch to the standard engine, Enter.  Before
+    the fix the conversion had no path (`shortest_path(..).unwrap()`, the process aborted); now the syllable
+    without a word is shown — and committed — as its spelling (here the two-character text `[0, 0]`) -/
+theorem f02_history_repaired :
+    ∃ e, (fuzzyEditor []).run toyEnv [.key keyH, .key keyH, .setEngine .chewing, .key keyEnter] = .ok e ∧
+      e.shared.commitBuf = [0, 0] ∧ e.shared.com.inner.symbols = [] ∧ e.state = .entering :=
+  ⟨_, rfl, rfl, rfl, rfl⟩
 
-/-- **the full statement is false** (finding F02; F03 likewise) -/
-theorem C01_full_refuted : ¬ C01_full := by
-  intro h
-  obtain ⟨e', he⟩ := h _ _ toyEnv _ toyEnv_ok (fuzzyEditor []) (fuzzyEditor_inv [])
-    [.key keyH, .key keyH, .setEngine .chewing, .key keyEnter] (by intro op _; cases op <;> trivial)
-  rw [f02_history_panics] at he
-  cases he
+/-- **F03 repaired**: type a syllable, remove its only word, Enter ⇒ committed as its spelling (formerly the same
+    abort) -/
+theorem f03_history_repaired :
+    ∃ e, (stdEditor [3]).run toyEnv [.key keyJ, .key keyJ, .unlearn [3] [3], .key keyEnter] = .ok e ∧
+      e.shared.commitBuf = [3, 3] ∧ e.shared.com.inner.symbols = [] :=
+  ⟨_, rfl, rfl, rfl⟩
 
-theorem ok_unique {α : Type} {r : Outcome α} {a b : α} (h1 : r = .ok a) (h2 : r = .ok b) : a = b :=
-  Outcome.ok.inj (h1.symm.trans h2)
+/-- **F03, the former hang and `debug_assert!`, repaired**: type a syllable, remove its only word, then Down
+    (`PhraseSelector::init` at the word-less syllable: stays on it; the list has no candidates, so it is not
+    opened: the key is ignored and nothing changes), `start_selecting` (refused the same way), and with the
+    simple engine a list that is open when the word disappears is closed by `revalidate_selecting` -/
+theorem f03_hang_repaired :
+    (∃ e e', (stdEditor [3]).run toyEnv [.key keyJ, .key keyJ, .unlearn [3] [3]] = .ok e ∧
+      e.processKey toyEnv keyDown = .ok (e', .ignore) ∧ e'.state = .entering ∧ e'.shared.com = e.shared.com ∧
+      (e.startSelecting toyEnv).map (·.2) = .ok false) ∧
+    (∃ e s e', (stdEditor [3]).run toyEnv [.setOptions { conversionEngine := .simple }, .key keyJ, .key keyJ] = .ok e ∧
+      e.state = .selecting s ∧ e.run toyEnv [.unlearn [3] [3], .key keyDown, .key keyDown] = .ok e' ∧
+      e'.state = .entering ∧ e'.shared.com.inner.symbols = [.syl 3]) :=
+  ⟨⟨_, _, rfl, rfl, rfl, rfl, rfl⟩, ⟨_, _, _, rfl, rfl, rfl, rfl, rfl⟩⟩
+
+/-- the selector itself on a buffer none of whose syllables has a word: `init` returns the one-syllable range at
+    the cursor, `next` (formerly an endless loop) returns to the range it started from -/
+theorem selector_on_wordless :
+    ∃ p p', PhraseSel.init toyEnv true .standard { symbols := [.syl 3, .syl 3], gaps := [.begin, .normal] } 0 ([] : List Nat) = .ok p ∧
+      (p.begin_, p.end_) = (0, 1) ∧ PhraseSel.next toyEnv { p with end_ := 2 } ([] : List Nat) = .ok p' ∧
+      (p'.begin_, p'.end_) = (0, 2) :=
+  ⟨_, _, rfl, rfl, rfl, rfl⟩
+
+/-- the statement of C01 applied to the two former counter-examples: they are ordinary histories now -/
+example : ∃ e', (fuzzyEditor []).run toyEnv [.key keyH, .key keyH, .setEngine .chewing, .key keyEnter] = .ok e' :=
+  C01 _ _ toyEnv _ toyEnv_ok (fuzzyEditor []) (fuzzyEditor_inv []) _ (by intro op _; cases op <;> trivial)
 
 theorem allowed_cons {e : Editor D L} {op : Op L} {ops : List (Op L)} (h1 : OpValid op) (h2 : ¬ Known env e op)
     (h4 : ∀ e', e.apply env op = .ok e' → Allowed env e' ops) : Allowed env e (op :: ops) :=
@@ -385,10 +494,10 @@ theorem allowed_two_keys {e : Editor D L} {k1 k2 : KeyEvent} {rest : List (Op L)
   allowed_cons trivial (fun h => h) fun e1 he1 =>
     allowed_cons trivial (fun h => h) fun e2 he2 => hr e1 e2 he1 he2
 
-/-- the engine switch of the F02 history is in the known class: the state right before it satisfies
-    the invariant, and `Known` holds of the switch -/
-theorem f02_is_known :
-    ∃ e, (fuzzyEditor []).run toyEnv [.key keyH, .key keyH] = .ok e ∧ EditorInv toyEnv (fun _ => True) e ∧
+/-- the engine switch of the F02 history is word-losing: the state right before it satisfies the invariant at
+    strength `True`, and `Known` holds of the switch (so the class is not empty; the switch is nevertheless safe) -/
+theorem f02_switch_loses_word :
+    ∃ e, (fuzzyEditor []).run toyEnv [.key keyH, .key keyH] = .ok e ∧ EditorInv toyEnv (fun _ => True) True e ∧
       Known toyEnv e (.setEngine .chewing) := by
   obtain ⟨e, he, hi⟩ := C01_partial_run toyEnv_ok [.key keyH, .key keyH] (fuzzyEditor []) (fuzzyEditor_inv [])
     (allowed_two_keys (fun _ _ _ _ => trivial))
@@ -436,7 +545,7 @@ theorem f41_history_repaired :
 /-- a covered history that types a syllable with a word, opens its candidate list through the API,
     closes it again and commits: allowed, so by `C01_partial_run` it returns and keeps the invariant -/
 example : ∃ e', (stdEditor [3]).run toyEnv [.key keyJ, .key keyJ, .startSelecting, .cancelSelecting, .commit] = .ok e' ∧
-    EditorInv toyEnv (fun _ => True) e' ∧ e'.shared.commitBuf = [3] := by
+    EditorInv toyEnv (fun _ => True) True e' ∧ e'.shared.commitBuf = [3] := by
   obtain ⟨e', he, hi⟩ := C01_partial_run toyEnv_ok [.key keyJ, .key keyJ, .startSelecting, .cancelSelecting, .commit]
     (stdEditor [3]) (stdEditor_inv [3])
     (allowed_two_keys (fun _ e2 _ _ =>
@@ -449,13 +558,10 @@ example : ∃ e', (stdEditor [3]).run toyEnv [.key keyJ, .key keyJ, .startSelect
   subst this
   exact ⟨_, he, hi, hc0⟩
 
-def keyDown : KeyEvent := { index := 57, code := KC.down, unicode := 65533 }
-def key1 : KeyEvent := { index := 1, code := KC.n1, unicode := 49 }
-
 /-- keys only: type a syllable, Down (opens the phrase list), Down again (`PhraseSelector::next`), `1`
     (chooses the first candidate: a selection is pushed), Enter: by `C01_plain_histories` -/
 example : ∃ e', (stdEditor [3]).run toyEnv [.key keyJ, .key keyJ, .key keyDown, .key keyDown, .key key1, .key keyEnter] = .ok e' ∧
-    EditorInv toyEnv (fun _ => True) e' :=
+    EditorInv toyEnv (fun _ => True) True e' :=
   C01_plain_histories toyEnv_ok _ (stdEditor_inv [3]) _ (by intro op hop; simp only [List.mem_cons, List.not_mem_nil, or_false] at hop; rcases hop with rfl | rfl | rfl | rfl | rfl | rfl <;> trivial)
 
 /-- … and that history does what it says: the list opens, the choice is recorded, Enter commits it -/
@@ -469,7 +575,7 @@ example : ∃ e1 s e2 e3, (stdEditor [3]).run toyEnv [.key keyJ, .key keyJ, .key
     one-syllable range) are plain operations: by `C01_plain_histories` they return and keep the invariant; the
     list stays open on the syllable -/
 example : ∃ e' s p, (stdEditor [3]).run toyEnv [.key keyJ, .key keyJ, .key keyJ, .key keyJ, .key keyHome, .startSelecting,
-      .jump 3, .jump 2, .jump 1, .jump 0] = .ok e' ∧ EditorInv toyEnv (fun _ => True) e' ∧
+      .jump 3, .jump 2, .jump 1, .jump 0] = .ok e' ∧ EditorInv toyEnv (fun _ => True) True e' ∧
     e'.state = .selecting s ∧ s.sel = .phrase p ∧ (p.begin_, p.end_, p.orig) = (0, 1, 0) := by
   obtain ⟨e', he, hi⟩ := C01_plain_histories toyEnv_ok _ (stdEditor_inv [3])
     [.key keyJ, .key keyJ, .key keyJ, .key keyJ, .key keyHome, .startSelecting, .jump 3, .jump 2, .jump 1, .jump 0]
